@@ -15,6 +15,7 @@ mod idcheck;
 mod gen_games;
 mod master;
 mod gs3;
+mod http;
 mod httpx;
 mod net;
 mod quake;
@@ -53,6 +54,7 @@ fn entries() -> Vec<(&'static str, EntryFn)> {
     v.extend(gs3::entries());
     v.extend(small::entries());
     v.extend(httpx::entries());
+    v.extend(http::entries());
     v
 }
 
